@@ -11,7 +11,21 @@ pub fn is_ws(s: &str) -> bool {
 // (adjacent transposition costs one, no substring edited twice) when `swap`; whitespace is
 // never substituted or transposed when `ws_only`.
 
+/// min over all prefixes b[..k] of the distance between a and b[..k], in one pass: the suffix
+/// recursion on the reversed strings has d(a, b[..k]) in row 0 (both metrics are invariant under
+/// reversing both strings)
+pub fn ref_prefix_distance(a: &[&str], b: &[&str], swap: bool, ws_only: bool) -> usize {
+    let ra: Vec<&str> = a.iter().rev().copied().collect();
+    let rb: Vec<&str> = b.iter().rev().copied().collect();
+    let (_, memo) = ref_distance_table(&ra, &rb, swap, ws_only, true);
+    (0..=rb.len()).map(|j| memo[0][j]).min().unwrap()
+}
+
 pub fn ref_distance(a: &[&str], b: &[&str], swap: bool, ws_only: bool) -> usize {
+    ref_distance_table(a, b, swap, ws_only, false).0
+}
+
+fn ref_distance_table(a: &[&str], b: &[&str], swap: bool, ws_only: bool, full_row0: bool) -> (usize, Vec<Vec<usize>>) {
     let n = a.len();
     let m = b.len();
     // memo[i][j] = distance between a[i..] and b[j..]
@@ -56,7 +70,14 @@ pub fn ref_distance(a: &[&str], b: &[&str], swap: bool, ws_only: bool) -> usize 
         memo[i][j] = r;
         r
     }
-    go(0, 0, a, b, swap, ws_only, &mut memo)
+    if full_row0 {
+        // fill from the far end so that the recursion depth stays small
+        for j in (0..=m).rev() {
+            go(0, j, a, b, swap, ws_only, &mut memo);
+        }
+    }
+    let d = go(0, 0, a, b, swap, ws_only, &mut memo);
+    (d, memo)
 }
 
 /// breadth-first search over single-character edits (Levenshtein only), for validating the
